@@ -1,6 +1,8 @@
 package drivers
 
 import (
+	"time"
+	"strings"
 	"github.com/evstack/ev-node/block"
 	"crypto/rand"
 	"fmt"
@@ -64,6 +66,31 @@ func (s *syncRun) forgeHeader(class string, h uint64) *types.SignedHeader {
 	return g
 }
 
+// forgeNext builds a block for the height after the proposer's last one, correctly hash-linked to the
+// genuine head (an empty block, so that it needs no data to be applicable): A8adv - signed with the
+// adversary's key under the proposer's address; A8uns - unsigned; A8gar - the proposer's signer, garbage signature.
+func (s *syncRun) forgeNext(class string) *types.SignedHeader {
+	g := s.headerOf(s.top)
+	first := s.headerOf(s.ih) // the genuine first block is empty: its data hash is the empty-block marker
+	head := g.Hash()
+	g.BaseHeader.Height = s.top + 1
+	g.BaseHeader.Time += uint64(time.Second)
+	g.LastHeaderHash = head
+	g.DataHash = first.DataHash
+	switch class {
+	case "A8adv":
+		g.Signer = types.Signer{PubKey: s.w.AdvPub, Address: s.w.PropAddr}
+		g.Signature = s.advSign(&g.Header)
+	case "A8uns":
+		g.Signature = nil
+	case "A8gar":
+		sig := make([]byte, 64)
+		rand.Read(sig)
+		g.Signature = sig
+	}
+	return g
+}
+
 func (s *syncRun) forgeData(class string, h uint64) []byte {
 	d := s.dataOf(h)
 	switch class {
@@ -118,6 +145,39 @@ func junk(rng *mrand.Rand, genuine []byte) []byte {
 
 // inject places one adversarial item. via: da | p2p (headers only).
 func (s *syncRun) inject(class string, h uint64, via string, rng *mrand.Rand) {
+	if strings.HasPrefix(class, "A8") {
+		h = s.top + 1
+		if s.isDown() {
+			return
+		}
+		m := s.full.M
+		fh := s.forgeNext(class)
+		if via == "p2p" && h == s.p2pH {
+			s.c.Tr.Emit("Inject", world.F{"node": "full", "class": class, "kind": "hdr", "h": int(h), "via": "p2p", "dah": 0})
+			s.full.HStore.AppendItem(fh)
+			s.p2pH++
+			select {
+			case m.VerifHeaderStoreCh() <- struct{}{}:
+			default:
+			}
+		} else {
+			s.c.Tr.Emit("Inject", world.F{"node": "full", "class": class, "kind": "hdr", "h": int(h), "via": "da", "dah": int(s.daH)})
+			s.w.DA.Place(s.daH, HeaderBlob(fh))
+			s.w.DA.SetCurrent(s.daH)
+			s.daH++
+			select {
+			case m.VerifRetrieveCh() <- struct{}{}:
+			default:
+			}
+		}
+		synctest.Wait()
+		if s.isDown() {
+			s.wg.Wait()
+			s.full.M = nil
+		}
+		s.full.Obs("inject")
+		return
+	}
 	if s.isDown() || h < s.ih || h > s.top {
 		return
 	}
@@ -196,7 +256,7 @@ func (s *syncRun) inject(class string, h uint64, via string, rng *mrand.Rand) {
 	s.full.Obs("inject")
 }
 
-var advClasses = []string{"A1same", "A1alt", "A1time", "A3", "A3g", "A4", "A5", "A5own", "A6", "A7", "D1", "D1same", "D3", "D4", "P1", "P1parked"}
+var advClasses = []string{"A1same", "A1alt", "A1time", "A3", "A3g", "A4", "A5", "A5own", "A6", "A7", "D1", "D1same", "D3", "D4", "P1", "P1parked", "A8adv", "A8uns", "A8gar"}
 
 // RunAdversary interleaves every adversarial class, at every position relative to the genuine
 // events of a chain, on every ingress, with genuine traffic on a full node.
@@ -213,6 +273,9 @@ func RunAdversary(c *Ctx) {
 				}
 				// position: the adversarial item for height t arrives when the node has applied `applied` blocks
 				for t := 1; t <= nb; t++ {
+					if strings.HasPrefix(class, "A8") && t != nb {
+						continue // these classes always target the height after the proposer's last block
+					}
 					for applied := 0; applied <= nb; applied++ {
 						if !c.Thorough() && rng.Intn(3) != 0 {
 							continue
